@@ -66,13 +66,13 @@ def shards(tier):
 
 
 def floors(tier):
-    scale = 1 if tier == 'quick' else 15
+    scale = 1 if tier == 'quick' else 8
     return {
         'evaluations': 8000 * scale, 'pairs_identical': 1800 * scale, 'pairs_different': 3600 * scale,
         'pairs_source': 2000 * scale, 'pairs_feature': 2000 * scale, 'pairs_schema': 1300 * scale, 'pairs_kind': 256,
         'collision_pairs': 100 * scale, 'getitem_checked': 350 * scale, 'pickle_checked': 350 * scale,
         'pickle_used_checked': 100 * scale, 'parser_checked': 200 * scale, 'reader_checked': 300 * scale,
-        'fidelity_checked': 800 * scale, 'stable_checked': 150, 'objects_built': 6000 * scale, 'directed_checked': 24,
+        'fidelity_checked': 800 * scale, 'stable_checked': 150, 'objects_built': 6000 * scale, 'directed_checked': 28,
     }
 
 
@@ -107,6 +107,26 @@ def structure_collision(left, right):
     return all(hash(conv[t](v)) == hash(conv[t](w)) for t, v, w in diffs)
 
 
+NUMBER = None
+
+
+def sql_collision(seen, want):
+    """Two SQL texts differ only in numeric literals whose python values collide under hash (-1/-2, 0/2**61-1 ...)."""
+    import re
+
+    global NUMBER  # pylint: disable=global-statement
+    if NUMBER is None:
+        NUMBER = re.compile(r'-?\d+(?:\.\d+)?(?:e[+-]?\d+)?')
+    if not isinstance(seen, str) or not isinstance(want, str) or NUMBER.sub('#', seen) != NUMBER.sub('#', want):
+        return False
+    pairs = [(a, b) for a, b in zip(NUMBER.findall(seen), NUMBER.findall(want)) if a != b]
+
+    def value(text):
+        return float(text) if ('.' in text or 'e' in text) else int(text)
+
+    return bool(pairs) and all(hash(value(a)) == hash(value(b)) for a, b in pairs)
+
+
 def twin_of(g, ast):
     """The statement with table A replaced by its twin A2 (same fields, other name), or None."""
     uses = any(n[0] == 'table' and n[1] == 'A' for _, n in g.walk(ast))
@@ -131,7 +151,7 @@ def classify(g, monitor, level, same, ax, ay, what, root=None):
     """Mechanism key of a disagreement from structural features of the pair (``root``: the statement a sub-object was
     taken from - a column of it may point at a reference whose definition holds a window)."""
     if same:
-        if has_window(g, ax) or has_window(g, root):
+        if has_window(g, ax) or has_window(g, g.norm(root) if root is not None else None):
             return 'window-identity'
         return f'{monitor}-splits-identical-{level}'
     if ax is not None and ay is not None:
@@ -209,6 +229,17 @@ def outputs(g, ast):
     return list(zip(names, feats))
 
 
+def misaligned(obj):
+    """The source lists more features than its schema has fields (Set.features concatenates both operands; equal names
+    collapse in the schema), so ``Source.__getitem__``'s zip(schema, features) pairs names with the wrong features."""
+    try:
+        return len(list(obj.schema)) != len(obj.features)
+    except RecursionError:
+        return False
+    except Exception:  # pylint: disable=broad-except
+        return False
+
+
 def check_getitem(ctx, g, x, y, same, ax, ay, what, witness):
     """x[name] / x.name then y[name] / y.name: the (cached) accessor must return each statement's own feature."""
     outs_x, outs_y = outputs(g, ax), outputs(g, ay)
@@ -229,7 +260,9 @@ def check_getitem(ctx, g, x, y, same, ax, ay, what, witness):
                     got = f'raises:{type(err).__name__}: {err}'
                 if got != want:
                     key = classify(g, 'getitem', 'source', same, ax, ay, what)
-                    if isinstance(got, list) and structure_collision(got, want):
+                    if isinstance(got, list) and misaligned(obj):
+                        key = 'getitem-schema-features-misaligned'
+                    elif isinstance(got, list) and structure_collision(got, want):
                         # the lru cache of Source.__getitem__ is process wide: the slot may belong to a third, earlier
                         # statement that differs from this one only in hash-colliding literals
                         key = 'literal-hash-collision'
@@ -374,6 +407,10 @@ def check_sql(ctx, g, sql, x, y, same, ax, ay, what, witness):
             key = classify(g, monitor, 'statement', same, ax, ay, what)
             if monitor == 'parser' and same and referenced and index == 1:
                 key = 'parser-cache-stale-reference-origin'
+            elif sql_collision(seen, want):
+                # the slot hit belongs to a feature that differs only in hash-colliding literals - possibly a feature
+                # at another position of the other statement, not the leaf this pair was derived from
+                key = 'literal-hash-collision'
             report(ctx, key, lambda: f'{monitor} shared by two statements produced for statement #{index + 1} {seen!r:.300} but a fresh '
                                f'parser produces {want!r:.300} (other statement: {(fresh_x, fresh_y)[1 - index]!r:.200})', witness)
             break
@@ -470,7 +507,7 @@ def run_statement(ctx, g, dsl, sql, ast, index, rng, keep):
     twin = twin_of(g, ast)
     if twin is not None:
         variants.append((twin, 'twin-table', ()))
-    budget = ctx.pick(12, 60)
+    budget = ctx.pick(12, 24)
     if len(variants) > budget:
         collisions = [v for v in variants if v[1] == 'literal']
         rest = [v for v in variants if v[1] != 'literal']
@@ -578,46 +615,59 @@ def run_kinds(ctx, g, dsl):
 
 
 def directed(g):
-    """(tag, ast x, ast y) - one pair per known finding plus the pool collisions in every clause position."""
+    """(tag, kind of leaf changed, ast x, ast y) - one pair per known finding plus the pool collisions in every clause."""
     A = g.table('A')
     ax, ay = g.column('A', 'x'), g.column('A', 'y')
     cases = []
     for tag, v, w, kind in (('int--1--2', -1, -2, 'int'), ('int-0-m61', 0, 2**61 - 1, 'int'), ('int-1-p61', 1, 2**61, 'int'),
                             ('float--1--2', -1.0, -2.0, 'float')):
         lv, lw = g.lit(v, kind), g.lit(w, kind)
-        cases.append((f'collision-where-{tag}', g.query(A, [ax], where=g.cmp('>', ay, lv)), g.query(A, [ax], where=g.cmp('>', ay, lw))))
-        cases.append((f'collision-select-{tag}', g.query(A, [g.alias(g.arith('+', ax, lv), 'k')]),
+        cases.append((f'collision-where-{tag}', 'literal', g.query(A, [ax], where=g.cmp('>', ay, lv)),
+                      g.query(A, [ax], where=g.cmp('>', ay, lw))))
+        cases.append((f'collision-select-{tag}', 'literal', g.query(A, [g.alias(g.arith('+', ax, lv), 'k')]),
                       g.query(A, [g.alias(g.arith('+', ax, lw), 'k')])))
-        cases.append((f'collision-orderby-{tag}', g.query(A, [ax], orderby=[(g.arith('*', ay, lv), 'asc')]),
+        cases.append((f'collision-orderby-{tag}', 'literal', g.query(A, [ax], orderby=[(g.arith('*', ay, lv), 'asc')]),
                       g.query(A, [ax], orderby=[(g.arith('*', ay, lw), 'asc')])))
-    for tag, v, w in (('int-1-2', g.lit(1), g.lit(2)), ('int-1-true', g.lit(1), g.lit(True)), ('int-1-float', g.lit(1), g.lit(1.0)),
-                      ('str-a-b', g.lit('a'), g.lit('b')), ('float-05-10', g.lit(0.5), g.lit(1.0)), ('int-0-false', g.lit(0), g.lit(False))):
-        cases.append((f'distinct-select-{tag}', g.query(A, [ax, g.alias(v, 'c')]), g.query(A, [ax, g.alias(w, 'c')])))
+    for tag, what, v, w in (('int-1-2', 'literal', g.lit(1), g.lit(2)), ('int-1-true', 'literal-kind', g.lit(1), g.lit(True)),
+                            ('int-1-float', 'literal-kind', g.lit(1), g.lit(1.0)), ('str-a-b', 'literal', g.lit('a'), g.lit('b')),
+                            ('float-05-10', 'literal', g.lit(0.5), g.lit(1.0)), ('int-0-false', 'literal-kind', g.lit(0), g.lit(False))):
+        cases.append((f'distinct-select-{tag}', what, g.query(A, [ax, g.alias(v, 'c')]), g.query(A, [ax, g.alias(w, 'c')])))
     win = g.query(A, [ax, g.alias(g.window('sum', ay, [ax], [(ay, 'asc')]), 'w')])
-    cases.append(('window-rebuilt', win, win))
+    cases.append(('window-rebuilt', 'identical', win, win))
     rank = g.query(A, [ax, g.alias(g.window('rownumber', None, [ax]), 'w')])
-    cases.append(('ranking-window-rebuilt', rank, rank))
-    cases.append(('twin-select-star', g.query(A), g.query(g.table('A2'))))
-    cases.append(('twin-table', A, g.table('A2')))
+    cases.append(('ranking-window-rebuilt', 'identical', rank, rank))
+    cases.append(('twin-select-star', 'twin-table', g.query(A), g.query(g.table('A2'))))
+    cases.append(('twin-table', 'twin-table', A, g.table('A2')))
     ref = g.reference(A, 'r')
-    cases.append(('reference-parsed-twice', g.query(ref, [g.column('r', 'x')]), g.query(ref, [g.column('r', 'x')])))
-    cases.append(('reference-name', g.query(ref, [g.column('r', 'x')]), g.query(g.reference(A, 'r_'), [g.column('r_', 'x')])))
+    cases.append(('reference-parsed-twice', 'identical', g.query(ref, [g.column('r', 'x')]), g.query(ref, [g.column('r', 'x')])))
+    cases.append(('reference-name', 'reference-name', g.query(ref, [g.column('r', 'x')]),
+                  g.query(g.reference(A, 'r_'), [g.column('r_', 'x')])))
+    union = g.reference(g.setop(g.query(A, [ax]), g.query(g.table('B'), [g.column('B', 'x')]), 'union'), 'u')
+    star = g.query(g.join(union, g.table('C'), 'cross', None))
+    cases.append(('select-star-over-reference-of-set', 'identical', star, star))
+    cases.append(('where-dropped', 'where-dropped', g.query(A, [ax], where=g.cmp('>', ay, g.lit(1))), g.query(A, [ax])))
+    cases.append(('alias-dropped', 'alias-dropped', g.query(A, [g.alias(ax, 'g'), ay]), g.query(A, [ax, ay])))
+    cases.append(('unnamed-output', 'identical', g.query(A, [g.arith('+', ax, g.lit(1))]), g.query(A, [g.arith('+', ax, g.lit(1))])))
     return cases
 
 
 def run_directed(ctx, g, sql, keep):
-    for tag, ax, ay in directed(g):
+    for tag, what, ax, ay in directed(g):
         ctx.count('directed_checked')
         same = g.signature(ax) == g.signature(ay)
-        info = {'ast': ax, 'variant': ay, 'what': tag, 'directed': True}
+        info = {'ast': ax, 'variant': ay, 'what': what, 'directed': tag}
         x, y = g.build(ax), g.build_raw(ay)
         ctx.shape(('directed', tag))
-        check_pair(ctx, g, 'source', x, y, same, ax, ay, tag, info, keep)
-        check_getitem(ctx, g, x, y, same, ax, ay, tag, info)
-        check_pickle(ctx, g, 'source', g.build_raw(ax), y, same, ax, ay, tag, info)
+        check_pair(ctx, g, 'source', x, y, same, ax, ay, what, info, keep)
+        check_getitem(ctx, g, x, y, same, ax, ay, what, info)
+        check_pickle(ctx, g, 'source', g.build_raw(ax), y, same, ax, ay, what, info)
         if ax[0] in ('query', 'set'):
-            check_sql(ctx, g, sql, x, y, same, ax, ay, tag, info)
-            check_pickle(ctx, g, 'source', x, y, same, ax, ay, tag, {**info, 'used': True}, used=True)
+            try:
+                x.schema  # pylint: disable=pointless-statement
+            except RecursionError:
+                pass
+            check_sql(ctx, g, sql, x, y, same, ax, ay, what, info)
+            check_pickle(ctx, g, 'source', x, y, same, ax, ay, what, {**info, 'used': True}, used=True)
 
 
 def check_stability(ctx, g, keep):
@@ -650,7 +700,7 @@ def run(ctx):
     keep = []
     rng = ctx.rng('gen')
     index = 0
-    stride = ctx.pick(8, 1)
+    stride = ctx.pick(8, 2)
     for ast in g.enumerate_asts(ctx.pick(1, 2), rng, leaves=1):
         index += 1
         if index % stride or not ctx.mine(index // stride):
@@ -658,7 +708,7 @@ def run(ctx):
         run_statement(ctx, g, dsl, sql, ast, index, ctx.rng('var', index), keep)
         if index % 301 == 0:
             ctx.sample({'statement': ast})
-    for i in range(ctx.pick(48, 2400)):
+    for i in range(ctx.pick(48, 640)):
         if not ctx.mine(i):
             continue
         local = ctx.rng('random', i)
